@@ -469,6 +469,19 @@ func checkC11(c any, r *Rec) error {
 		if got != want.String() {
 			return fmt.Errorf("composition differs\n got  %q\n want %q\n %s", got, want.String(), desc())
 		}
+		// the same compiled template executed again without the caller's entry, and then with it
+		// again: an included template sees the includer's variables of THIS execution
+		var wantNo strings.Builder
+		if e := ref.render(cs.Root, rootFile, &c11Env{}, &wantNo, nil); e == nil {
+			gotNo, errNo := tpl.Execute(pongo2.Context{})
+			gotAgain, errAgain := tpl.Execute(ctx)
+			if errNo != nil || gotNo != wantNo.String() {
+				return fmt.Errorf("second execution, with a context that lacks the entry cv: got %q (err %v), want %q\n %s", gotNo, errNo, wantNo.String(), desc())
+			}
+			if errAgain != nil || gotAgain != want.String() {
+				return fmt.Errorf("third execution, with the first context again: got %q (err %v), want %q\n %s", gotAgain, errAgain, want.String(), desc())
+			}
+		}
 	}
 	// the loaders' content changes: what is compiled afresh afterwards shows the new content by
 	// every route - literal names as well as names computed at run time
@@ -850,7 +863,7 @@ func genC11(t *rapid.T) *c11Case {
 
 var _ = register(&propSpec{
 	ID:    "C11.compose",
-	Rule:  "virtual file trees (10 names with equal base names in different directories up to 3 deep), 1-3 loaders serving overlapping names with different contents, acyclic reference graphs over include (static / lazy with rooted names / lazy with names relative to the referring file, with pair, only, if_exists), extends (+ block override), import (+ call), ssi plain (content never parsed) and ssi parsed; names written rooted, relative (incl. ..) and rooted with a detour; a reader that breaks half way in the first loader that has a name (must be an error, not a reason to ask the next loader); references to names no loader serves (by every tag; also from inside the target of an if_exists include, which if_exists does not forgive); includer variables (context, set, with pair, a set of the very name a pair passes) probed in every file; other tags executed before a reference (anonymous and named cycle, for, with, firstof, widthratio as, macro, filter, ifchanged, spaceless - what they bind for themselves is no business of the template referred to). The worker's working directory holds canary files at the same relative paths, and two of the virtual names also exist as absolute paths of the real file system (canary content); none of them is served by a loader. Oracle: reference composition (first loader having a name wins; relative names resolve against the referring file; missing => error, or nothing with if_exists; only hides includer variables), the loaders' Get logs contain no name outside the referenced set and everything used was fetched, no canary text ever appears; then the content of every file changes and a fresh FromFile of the root must show the new content by every route (literal and computed names alike). Non-trivial: loaders disagree on a name, or a relative reference crosses directories, or only / if_exists present.",
+	Rule:  "virtual file trees (10 names with equal base names in different directories up to 3 deep), 1-3 loaders serving overlapping names with different contents, acyclic reference graphs over include (static / lazy with rooted names / lazy with names relative to the referring file, with pair, only, if_exists), extends (+ block override), import (+ call), ssi plain (content never parsed) and ssi parsed; names written rooted, relative (incl. ..) and rooted with a detour; a reader that breaks half way in the first loader that has a name (must be an error, not a reason to ask the next loader); references to names no loader serves (by every tag; also from inside the target of an if_exists include, which if_exists does not forgive); includer variables (context, set, with pair, a set of the very name a pair passes) probed in every file; other tags executed before a reference (anonymous and named cycle, for, with, firstof, widthratio as, macro, filter, ifchanged, spaceless - what they bind for themselves is no business of the template referred to). The worker's working directory holds canary files at the same relative paths, and two of the virtual names also exist as absolute paths of the real file system (canary content); none of them is served by a loader. Oracle: reference composition (first loader having a name wins; relative names resolve against the referring file; missing => error, or nothing with if_exists; only hides includer variables), the loaders' Get logs contain no name outside the referenced set and everything used was fetched, no canary text ever appears; the compiled root is executed again without the caller's context entry and once more with it (an included template sees the variables of the execution it runs in); then the content of every file changes and a fresh FromFile of the root must show the new content by every route (literal and computed names alike). Non-trivial: loaders disagree on a name, or a relative reference crosses directories, or only / if_exists present.",
 	Gen:   func(t *rapid.T) any { return genC11(t) },
 	New:   func() any { return &c11Case{} },
 	Check: checkC11,
